@@ -553,9 +553,31 @@ func c04Improving(dir int, c float64) bool {
 	return (dir == c04Min && c < 0) || (dir == c04Max && c > 0)
 }
 
+// cloneAfterUse: the rest of the instance runs on a DeepClone() of the explorer taken AFTER it has already tried changes
+// (a warm-up or trial run before the scenario's runner clones the annealer; a finished run cloned again).  The clone
+// copies temperature and objective, so the step sequence simply continues -- on the clone's own model.
+func (r *c04Rig) cloneAfterUse() {
+	if r.setNext == nil {
+		return
+	}
+	cl := r.ke.DeepClone().(*kexplorer.Explorer)
+	cm := cl.Model().(*c04Model)
+	cl.SetRandomNumberGenerator(rand.New(r.src)) // DeepClone installs a time-seeded generator
+	r.ke, r.calls = cl, &cm.c04Calls
+	r.setNext = func(v bool, c float64) { cm.nextValid, cm.nextChange = v, c }
+	c04stats["clone_after_use"]++
+}
+
 func c04Instance(p *prng, dir int, T, cf float64, coolP float64, class string, full bool) {
 	r := c04Scripted(dir, T, cf, math.Round(1e6*p.float())/1000, class)
-	for _, pr := range c04Proposals(p, T, full) {
+	cloneAt := -1
+	if p.chance(0.4) {
+		cloneAt = 1 + p.intn(6)
+	}
+	for pi, pr := range c04Proposals(p, T, full) {
+		if pi == cloneAt {
+			r.cloneAfterUse()
+		}
 		Tnow := r.ke.Temperature
 		if !pr.valid || c04Improving(dir, pr.change) {
 			r.step(pr.valid, pr.change, int64(p.next()>>1), p.chance(coolP), "irrelevant")
